@@ -407,6 +407,9 @@ class Interp:
         """Apply an abstract closure value to abstract arguments."""
         clo = deref_all(clo)
         if isinstance(clo, Obj) and clo.kind == 'fnitem':
+            ctor = clo.d['cal'].get('ctor')
+            if ctor:        # `Err`, `Some`, `ShapeError` ... used as a function: builds the variant from its positional fields
+                return Enum(strip_generics(ctor['adt']), ctor['variant'], {str(i): a for i, a in enumerate(args)})
             return self._call_path(clo.d['cal'], args, e, None)
         if not isinstance(clo, Clo):
             raise Unsupported("call of non-closure %r" % (clo,), e)
@@ -533,6 +536,23 @@ class Interp:
         r = self._option_result(tname, args, e)
         if r is not NotImplemented:
             return r
+        r = self._cseq_call(tname, args, e)
+        if r is not NotImplemented:
+            return r
+        if tname in ('std::array::<impl [T; N]>::map', 'core::array::<impl [T; N]>::map') and isinstance(deref_all(args[0]), Tup):
+            return Tup([self.apply(args[1], [x], e) for x in deref_all(args[0]).items])
+        if tname == 'std::ops::RangeInclusive::new' and len(args) == 2:
+            return Enum('std::ops::RangeInclusive', 'RangeInclusive', {'start': args[0], 'end': args[1]})
+        if tname.split('::')[-1] == 'contains' and tname.startswith('std::ops::Range') and len(args) == 2:
+            # RangeBounds::contains: start <= item (resp. <) first, then item <= end (resp. <), short-circuiting
+            rg, item = deref_all(args[0]), deref_all(args[1])
+            if isinstance(rg, Enum) and isinstance(item, Num):
+                ok = True
+                if 'start' in rg.fields:
+                    ok = m.compare('le', deref_all(rg.fields['start']), item, e)
+                if ok and 'end' in rg.fields:
+                    ok = m.compare('le' if rg.adt.endswith('Inclusive') else 'lt', item, deref_all(rg.fields['end']), e)
+                return B(ok)
         if tname == 'std::option::Option::map':
             o = deref_all(args[0])
             if isinstance(o, Enum) and o.variant == 'Some':
@@ -798,6 +818,12 @@ class Interp:
             idx = self.eval(e['i'], fr)
             r = self.model.call('builtin::index', {'path': 'builtin::index'}, [base, idx], e, fr)
             if r is NotImplemented:
+                bt, it_ = deref_all(base), deref_all(idx)
+                if isinstance(bt, Tup) and isinstance(it_, Num) and it_.const() is not None and it_.const().denominator == 1:
+                    i = int(it_.const())
+                    if 0 <= i < len(bt.items):
+                        return FieldPlace(ValPlace(bt), str(i))
+                    raise Diverge("index %d out of bounds of an array of length %d" % (i, len(bt.items)), e)
                 raise Unsupported("built-in indexing of %r" % (base,), e)
             if isinstance(r, Place):
                 return r
@@ -832,7 +858,10 @@ class Interp:
         if k in ('NeverToAny', 'PointerCoercion', 'ByUse'):
             return self.eval(e['e'], fr)
         if k == 'Cast':
-            return self.eval(e['e'], fr)
+            v = self.eval(e['e'], fr)
+            if isinstance(deref_all(v), B) and e.get('ty') not in ('bool',):
+                return Num(1 if deref_all(v).b else 0)      # `flag as usize`
+            return v
         if k == 'Field':
             return self.eval_place(e, fr).get()
         if k == 'Index':
@@ -1021,7 +1050,237 @@ class Interp:
             body = some_arm['body']
         except Exception:
             raise Unsupported("unrecognised `for` desugaring", e)
+        seq = self._as_cseq(iterable, by_value=True, ranges=False)
+        if seq is None and self._as_cseq(iterable, by_value=True) is not None:
+            # a literal range: the model's loop summary first (one inductive step), the concrete iteration only if it has none
+            try:
+                return self.model.for_loop(iterable, pat, body, fr, e)
+            except Unsupported:
+                seq = self._as_cseq(iterable, by_value=True)
+        if seq is not None:
+            # a sequence of concretely known length (array literal, table of closures, literal range): iterate it as written
+            while True:
+                item = self._cseq_pull(seq, e)
+                if item is None:
+                    return Unit()
+                lf = Frame(fr)
+                if not self.match_pat(pat, ValPlace(item), lf):
+                    raise Unsupported("loop pattern over a concrete sequence", e)
+                try:
+                    self.eval(body, lf)
+                except ContinueEx:
+                    continue
+                except BreakEx:
+                    return Unit()
         return self.model.for_loop(iterable, pat, body, fr, e)
+
+    # ------------------------------------------------------------ concrete sequences
+    CSEQ_MAX = 64
+
+    def _as_cseq(self, v, by_value=False, ranges=True):
+        """view `v` as a sequence of concretely known length, or None"""
+        d = deref_all(v)
+        if isinstance(d, Obj) and d.kind == 'cseq':
+            return d
+        if isinstance(d, Tup) and len(d.items) <= self.CSEQ_MAX:
+            if by_value and not isinstance(v, Ref):
+                return Obj('cseq', src=list(d.items), ops=[], pos=0)
+            return Obj('cseq', src=[Ref(FieldPlace(ValPlace(d), str(i))) for i in range(len(d.items))], ops=[], pos=0)
+        if ranges and isinstance(d, Enum) and d.adt in ('std::ops::Range', 'std::ops::RangeInclusive'):
+            s_, e_ = deref_all(d.fields.get('start')), deref_all(d.fields.get('end'))
+            if isinstance(s_, Num) and isinstance(e_, Num) and s_.const() is not None and e_.const() is not None and \
+                    s_.const().denominator == 1 and e_.const().denominator == 1:
+                lo, hi = int(s_.const()), int(e_.const()) + (1 if d.adt.endswith('Inclusive') else 0)
+                if hi - lo <= self.CSEQ_MAX:
+                    return Obj('cseq', src=[Num(i) for i in range(lo, max(lo, hi))], ops=[], pos=0)
+        return None
+
+    def _cseq_pull(self, seq, e):
+        """next element (adaptors applied lazily, per element, in the order written) or None at the end"""
+        d = seq.d
+        while d['pos'] < len(d['src']):
+            item = d['src'][d['pos']]
+            d['pos'] += 1
+            keep = True
+            for op in d['ops']:
+                kind = op[0]
+                if kind == 'map':
+                    item = self.apply(op[1], [item], e)
+                elif kind == 'filter':
+                    r = deref_all(self.apply(op[1], [Ref(ValPlace(item))], e))
+                    if not isinstance(r, B):
+                        raise Unsupported("filter predicate is not decided: %r" % (r,), e)
+                    if not r.b:
+                        keep = False
+                        break
+                elif kind == 'filter_map':
+                    r = deref_all(self.apply(op[1], [item], e))
+                    if not (isinstance(r, Enum) and r.adt == 'std::option::Option'):
+                        raise Unsupported("filter_map closure result is not decided: %r" % (r,), e)
+                    if r.variant == 'None':
+                        keep = False
+                        break
+                    item = r.fields['0']
+                elif kind == 'enumerate':
+                    item = Tup([Num(op[1]['n']), item])
+                    op[1]['n'] += 1
+                elif kind in ('copied', 'cloned'):
+                    item = deref_all(item)
+                elif kind == 'skip':
+                    if op[1]['n'] > 0:
+                        op[1]['n'] -= 1
+                        keep = False
+                        break
+                elif kind == 'take':
+                    if op[1]['n'] <= 0:
+                        d['pos'] = len(d['src'])
+                        return None
+                    op[1]['n'] -= 1
+                elif kind == 'zip':
+                    other = self._cseq_pull(op[1], e)
+                    if other is None:
+                        d['pos'] = len(d['src'])
+                        return None
+                    item = Tup([item, other])
+                elif kind == 'inspect':
+                    self.apply(op[1], [Ref(ValPlace(item))], e)
+            if keep:
+                return item
+        return None
+
+    def _cseq_call(self, tname, args, e):
+        """std's Iterator adaptors and consumers on sequences of concretely known length"""
+        if not args:
+            return NotImplemented
+        last = tname.split('::')[-1]
+        if tname in ('core::slice::<impl [T]>::iter', 'core::slice::<impl [T]>::iter_mut', 'core::array::<impl [T; N]>::iter',
+                     'std::iter::IntoIterator::into_iter') or (tname.endswith('::into_iter') and 'IntoIterator' in tname):
+            d = deref_all(args[0])
+            if isinstance(d, (Tup,)) or (isinstance(d, Obj) and d.kind == 'cseq'):
+                # ranges stay what they are until an adaptor or consumer asks for their elements (models summarise symbolic loops over them)
+                return self._as_cseq(args[0], by_value=last == 'into_iter', ranges=False) or NotImplemented
+            return NotImplemented
+        if not tname.startswith('std::iter::Iterator::') and not tname.startswith('std::iter::DoubleEndedIterator::'):
+            return NotImplemented
+        a0 = deref_all(args[0])
+        if not (isinstance(a0, Obj) and a0.kind == 'cseq') and not (isinstance(a0, Enum) and a0.adt in ('std::ops::Range', 'std::ops::RangeInclusive')):
+            return NotImplemented
+        seq = self._as_cseq(args[0])
+        if seq is None:
+            return NotImplemented
+        d = seq.d
+
+        def adapted(op):
+            return Obj('cseq', src=d['src'], ops=d['ops'] + [op], pos=d['pos'])
+        if last in ('map', 'filter', 'filter_map', 'inspect'):
+            return adapted((last, args[1]))
+        if last in ('copied', 'cloned'):
+            return adapted((last,))
+        if last == 'enumerate':
+            return adapted(('enumerate', {'n': 0}))
+        if last in ('skip', 'take'):
+            n = deref_all(args[1])
+            if isinstance(n, Num) and n.const() is not None:
+                return adapted((last, {'n': int(n.const())}))
+            return NotImplemented
+        if last == 'rev':
+            if d['ops'] or d['pos']:
+                return NotImplemented
+            return Obj('cseq', src=list(reversed(d['src'])), ops=[], pos=0)
+        if last == 'zip':
+            other = self._as_cseq(args[1], by_value=True)
+            if other is None:
+                return NotImplemented
+            return adapted(('zip', other))
+        if last == 'chain':
+            other = self._as_cseq(args[1], by_value=True)
+            if other is None or d['ops'] or other.d['ops']:
+                return NotImplemented
+            return Obj('cseq', src=d['src'][d['pos']:] + other.d['src'][other.d['pos']:], ops=[], pos=0)
+        # ---- consumers
+        if last == 'next':
+            item = self._cseq_pull(seq, e)
+            return SOME(item) if item is not None else NONE
+        if last in ('find_map', 'find', 'any', 'all', 'position'):
+            i = 0
+            while True:
+                item = self._cseq_pull(seq, e)
+                if item is None:
+                    return {'find_map': NONE, 'find': NONE, 'any': B(False), 'all': B(True), 'position': NONE}[last]
+                r = deref_all(self.apply(args[1], [Ref(ValPlace(item))] if last == 'find' else [item], e))
+                if last == 'find_map':
+                    if not (isinstance(r, Enum) and r.adt == 'std::option::Option'):
+                        raise Unsupported("find_map closure result is not decided: %r" % (r,), e)
+                    if r.variant == 'Some':
+                        return r
+                else:
+                    if not isinstance(r, B):
+                        raise Unsupported("%s predicate is not decided: %r" % (last, r), e)
+                    if last == 'find' and r.b:
+                        return SOME(item)
+                    if last == 'any' and r.b:
+                        return B(True)
+                    if last == 'all' and not r.b:
+                        return B(False)
+                    if last == 'position' and r.b:
+                        return SOME(Num(i))
+                i += 1
+        if last in ('for_each', 'try_for_each'):
+            while True:
+                item = self._cseq_pull(seq, e)
+                if item is None:
+                    return Unit() if last == 'for_each' else OK(Unit())
+                r = deref_all(self.apply(args[1], [item], e))
+                if last == 'try_for_each':
+                    if isinstance(r, Enum) and r.variant in ('Err', 'None', 'Break'):
+                        return r
+                    if not (isinstance(r, Enum) and r.variant in ('Ok', 'Some', 'Continue')):
+                        raise Unsupported("try_for_each closure result is not decided: %r" % (r,), e)
+        if last in ('fold', 'try_fold'):
+            acc = args[1]
+            while True:
+                item = self._cseq_pull(seq, e)
+                if item is None:
+                    return acc if last == 'fold' else self._try_wrap_like(getattr(self, '_last_try', None), acc)
+                r = self.apply(args[2], [acc, item], e)
+                if last == 'fold':
+                    acc = r
+                else:
+                    r = deref_all(r)
+                    if isinstance(r, Enum) and r.variant in ('Err', 'None', 'Break'):
+                        return r
+                    if not (isinstance(r, Enum) and r.variant in ('Ok', 'Some', 'Continue')):
+                        raise Unsupported("try_fold closure result is not decided: %r" % (r,), e)
+                    self._last_try = r
+                    acc = r.fields['0']
+        if last == 'count':
+            n = 0
+            while self._cseq_pull(seq, e) is not None:
+                n += 1
+            return Num(n)
+        if last == 'last':
+            cur = None
+            while True:
+                item = self._cseq_pull(seq, e)
+                if item is None:
+                    return SOME(cur) if cur is not None else NONE
+                cur = item
+        if last == 'collect':
+            items = []
+            while True:
+                item = self._cseq_pull(seq, e)
+                if item is None:
+                    return Tup(items)
+                items.append(item)
+        return NotImplemented
+
+    @staticmethod
+    def _try_wrap_like(sample, acc):
+        if isinstance(sample, Enum) and sample.adt == 'std::option::Option':
+            return SOME(acc)
+        if isinstance(sample, Enum) and sample.adt == 'std::ops::ControlFlow':
+            return Enum('std::ops::ControlFlow', 'Continue', {'0': acc})
+        return OK(acc)
 
 
 def _pat_vars(pat):
